@@ -84,7 +84,7 @@ func genC19(seed int64, tier string, out *Writer) {
 		acyclic := r.Intn(3) != 0
 		for i := range srcs {
 			for f := 0; f < 3; f++ {
-				for k := r.Intn(3); k > 0; k-- {
+				for k := r.Intn(6); k > 0; k-- {
 					rel := []J{}
 					for a := 1 + r.Intn(3); a > 0; a-- {
 						t := r.Intn(ns)
